@@ -19,7 +19,9 @@ import (
 	"reflect"
 
 	"github.com/EliCDavis/polyform/formats/stl"
+	"github.com/EliCDavis/polyform/generator/artifact"
 	"github.com/EliCDavis/polyform/modeling"
+	"github.com/EliCDavis/polyform/nodes"
 	"github.com/EliCDavis/vector/vector3"
 
 	"verif/harness/core"
@@ -203,6 +205,20 @@ func (k checker) meshCase(s meshlib.Spec, mode string) {
 			outcome = "mismatch"
 		}
 		viol(site, clause, detail)
+	}
+	// the node-graph entry point (stl.ArtifactNode) writes the same bytes
+	{
+		var nb bytes.Buffer
+		var nerr error
+		g := core.Guard(func() {
+			var art artifact.Artifact
+			if art, nerr = (stl.ArtifactNodeData{In: nodes.Value(buildMesh(s, mode)).Out()}).Process(); nerr == nil {
+				nerr = art.Write(&nb)
+			}
+		})
+		if g.Panicked || nerr != nil || !bytes.Equal(nb.Bytes(), b) {
+			bad("stl.ArtifactNodeData.Process", "the node-graph entry point writes the bytes stl.WriteMesh writes", fmt.Sprintf("artifact wrote %d bytes, stl.WriteMesh %d (or other content) %s %v (%s)", nb.Len(), len(b), g.Msg, nerr, s))
+		}
 	}
 
 	if !hasPosition(s) {
@@ -677,6 +693,15 @@ func (k checker) bytesRecs(cs Case, h int, rs []rec, scope, class string, meshPa
 		}
 		bad("stl.ReadMesh", clRead, "a well-formed file is rejected: "+msg+" ("+what+")")
 	default:
+		// the node-graph entry point (stl.ReadNode) reads the same bytes to the same mesh
+		{
+			var nm modeling.Mesh
+			var nerr error
+			g := core.Guard(func() { nm, nerr = stl.ReadNodeData{Data: nodes.Value(append([]byte{}, in...)).Out()}.Process() })
+			if g.Panicked || nerr != nil || meshlib.QuickHash(nm) != meshlib.QuickHash(*m) {
+				bad("stl.ReadNodeData.Process", "the node-graph entry point reads a file to the mesh stl.ReadMesh reads it to", fmt.Sprintf("node result differs from stl.ReadMesh's %s %v (%s)", g.Msg, nerr, trimWhat(what)))
+			}
+		}
 		anyStored := false
 		for _, r := range rs {
 			if r.n != [3]float32{} {
